@@ -225,6 +225,8 @@ def run(model: Model, rep: Report) -> None:
     from .c02 import cache_writers_rule
 
     cache_writers_rule(model, rep, "C12-R6")
+    # ---------------------------------------------------------------- R7
+    _memo_purity(model, rep)
 
 
 def _has_instance_state_writers(model: Model, cls: str) -> bool:
@@ -516,3 +518,47 @@ def doc_mutation_rule(model: Model, rep: Report, rid: str, only: Optional[Tuple[
                     r5.safe(site(f, s), f.qualname, txt[:80], reason)
                 else:
                     r5.violation(site(f, s), f.qualname, txt[:90], f"`{unparse(tg)}` aliases an object held by the document (parsed dictionary/list, possibly cached): writing into it changes what later pages, later fonts or a run with caching off observe")
+
+
+def _memo_purity(model: Model, rep: Report) -> None:
+    """C12-R7: what a process-wide memo table stores under a key is a function of that key (and of immutable globals) only."""
+    r7 = rep.rule("C12-R7", "DEPEND", "memo tables: the value stored under a key depends on the key alone - not on other arguments of the call that happened to fill the table", 2)
+    import builtins
+
+    for (container, fq), _reason in sorted(ALLOWED_WRITES.items()):
+        f = model.func(fq)
+        attr = container.rsplit(".", 1)[1]
+        stores = [n for n in walk_no_nested(f.node) if isinstance(n, ast.Assign) and any(isinstance(t, ast.Subscript) and isinstance(t.value, ast.Attribute) and t.value.attr == attr for t in n.targets)]
+        if not stores:
+            raise AnchorMissing(f"{fq}: store into {attr} not found")
+        a = f.node.args  # type: ignore[attr-defined]
+        params = [x.arg for x in a.posonlyargs + a.args + a.kwonlyargs]
+        defs: Dict[str, List[ast.AST]] = {}
+        for n in walk_no_nested(f.node):
+            if isinstance(n, ast.Assign):
+                for t in n.targets:
+                    for x in ast.walk(t):
+                        if isinstance(x, ast.Name) and isinstance(x.ctx, ast.Store):
+                            defs.setdefault(x.id, []).append(n.value)
+        for st_ in stores:
+            sub = next(t for t in st_.targets if isinstance(t, ast.Subscript))
+            key_names = {x.id for x in ast.walk(sub.slice) if isinstance(x, ast.Name)}
+            bound = {x.id for c in ast.walk(st_.value) if isinstance(c, ast.comprehension) for x in ast.walk(c.target) if isinstance(x, ast.Name)}
+            bad: List[str] = []
+
+            def depends(e: ast.AST, seen: Tuple[str, ...]) -> None:
+                for x in ast.walk(e):
+                    if not (isinstance(x, ast.Name) and isinstance(x.ctx, ast.Load)):
+                        continue
+                    nm = x.id
+                    if nm in key_names or nm in bound or nm in seen or nm in ("cls", "self") or hasattr(builtins, nm):
+                        continue
+                    if nm in defs:
+                        for d in defs[nm]:
+                            depends(d, seen + (nm,))
+                    elif nm in params:
+                        bad.append(nm)
+                    # anything else is a module/class-level name: process-wide, not per call
+
+            depends(st_.value, ())
+            r7.check(not bad, site(f, st_), f.qualname, f"{unparse(st_)[:90]}: stored value depends on the key `{', '.join(sorted(key_names))}` only", why=f"the stored value also depends on the argument(s) {sorted(set(bad))} of the call that filled the table: a later call with the same key and another argument gets the first caller's value")
